@@ -109,6 +109,16 @@ func WConfig(prop, tier string) *Config {
 		}
 		cfg.Phases = append(cfg.Phases, Phase{Name: fmt.Sprintf("second-venue-depth%d", d), Roots: []string{"R19"}, Ops: ops, Depth: d, Dev: 3})
 	}
+	// VOUCHER VENUE (root R23): an asset with 18 decimals whose profile's base denom differs from its denom, in a
+	// constant-product pool whose price the ops push far from the oracle's; pending spot orders in that asset
+	if voucherProps[prop] {
+		ops := append(append([]string{}, voucherOps...), "ts_execute_all_bot", "ts_execute_each_bot", "ts_cancel_all_by_own1", "ts_cancel_everyones_by_own2", "mc_claim_lp1", "swap_in_p1_usdc_atom_L", "gap_1d", "nofeed", "empty")
+		d := 2
+		if tier == "thorough" {
+			d = 3
+		}
+		cfg.Phases = append(cfg.Phases, Phase{Name: fmt.Sprintf("voucher-venue-depth%d", d), Roots: []string{"R23"}, Ops: ops, Depth: d, Dev: 3})
+	}
 	// MULTI-MESSAGE TRANSACTIONS: every ordered pair of a same-signer op set as ONE signed transaction, and
 	// every op followed by a message that fails (the whole transaction must roll back), then an empty block
 	if set, ok := multiMsgSets[prop]; ok {
@@ -360,7 +370,7 @@ func wConfig(prop, tier string) *Config {
 			"ts_perp_long_met_own1", "ts_perp_long_unmet_own1", "ts_perp_short_unmet_own1", "ts_perp_long_met_huge_own1", "ts_perp_long_met_own2",
 			"ts_update_spot_first_by_own1", "ts_cancel_spot_first_by_own1", "ts_update_perp_first_by_own1", "ts_cancel_perp_first_by_own1", "ts_cancel_all_by_own1",
 			"ts_update_spot_first_by_own2", "ts_cancel_spot_first_by_bot", "ts_update_perp_first_by_bot", "ts_cancel_perp_first_by_own2", "ts_cancel_all_by_own2", "ts_cancel_everyones_by_own2",
-			"ts_execute_all_bot", "ts_execute_all_plus_missing_bot", "ts_execute_all_twice", "ts_execute_all_bot_at_3", "ts_execute_all_bot_at_8", "ts_spot_limitsell_unmet_own1", "cfg_perp_maxpos0", "price_atom_3", "price_atom_8", "nofeed", "empty"}
+			"ts_execute_all_bot", "ts_execute_each_bot", "ts_execute_all_plus_missing_bot", "ts_execute_all_twice", "ts_execute_all_bot_at_3", "ts_execute_all_bot_at_8", "ts_spot_limitsell_unmet_own1", "cfg_perp_maxpos0", "price_atom_3", "price_atom_8", "nofeed", "empty"}
 		cfg.Oracles = []*Oracle{OracleC20()}
 		if thorough {
 			cfg.Phases = []Phase{{Name: "full-depth3", Roots: []string{"R0", "R1", "R12"}, Ops: ops, Depth: 3, Dev: 3},
@@ -421,6 +431,8 @@ func wConfig(prop, tier string) *Config {
 }
 
 var wideProps = map[string]bool{"C01": true, "C02": true, "C06": true, "C08": true, "C09": true, "C10": true, "C11": true, "C12": true, "C13": true, "C15": true, "C18": true}
+
+var voucherProps = map[string]bool{"C01": true, "C02": true, "C13": true, "C15": true, "C18": true, "C20": true}
 
 var perpEdgeOps = []string{"perp_bot_liquidate_all_fwd_at_edge_long", "perp_bot_liquidate_all_rev_at_edge_long", "perp_bot_liquidate_all_fwd_at_edge_short", "perp_bot_liquidate_all_rev_at_edge_short"}
 
